@@ -141,6 +141,7 @@ type TimerObj struct {
 	cell     *Cell
 	Fires    int
 	armVC    []int
+	deadline *Term
 }
 
 // ---- channels ----
